@@ -110,6 +110,21 @@ theorem translated_drop_only_if_discarding_and_counted (σ : Env) :
       ("send childNode.Ch", [σ "event"]) ∉ (obs Trans.deliverBody σ).calls) := by
   rw [translated_deliverBody]
   by_cases h1 : σ "room childNode.Ch" = 0 <;> by_cases h2 : σ "childNode.Config.DiscardOnFullBuffer" = 0 <;> simp [h1, h2, gauge]
+
+/-- the main loop's delivery of one source event to one root node (F11): the same policy as delivery to any other node — with
+room the event is sent; a full discarding root costs the event and one count of its discarded_events_total and the source
+is not held up; a full non-discarding root gets a blocking send after one count of buffer_full_events_total -/
+theorem translated_rootDeliverBody (σ : Env) :
+    (obs Trans.exRootDeliverBody σ).calls =
+      (if σ "room rootNode.Ch" ≠ 0 then [("send rootNode.Ch", [σ "sourceEvent"])]
+        else if σ "rootNode.Config.DiscardOnFullBuffer" ≠ 0 then
+          [("metrics.Node().DiscardedEvents.WithLabelValues(rootNode.Config.ID).Inc", [])]
+        else [("metrics.Node().BufferFullEvents.WithLabelValues(rootNode.Config.ID).Inc", []), ("send rootNode.Ch", [σ "sourceEvent"])])
+        ++ [("metrics.Node().BufferedEvents.WithLabelValues(rootNode.Config.ID).Set", [σ "float64(len(rootNode.Ch))"])] ∧
+    (obs Trans.exRootDeliverBody σ).ret = none ∧ (obs Trans.exRootDeliverBody σ).stuck = false := by
+  by_cases h1 : σ "room rootNode.Ch" = 0 <;> by_cases h2 : σ "rootNode.Config.DiscardOnFullBuffer" = 0 <;>
+  minigo_simp [Trans.exRootDeliverBody, h1, h2]
+
 end Translated
 
 theorem closure_unchanged : GeneratedClo.C04 = ExpectedClo.C04 := by rfl
